@@ -293,12 +293,16 @@ inline void auditPartition(const ADD& d, const AuditOpt& o, vf::Case& c, const s
   // --- each value inside its own class interval, up to the resolution the object declares for class values: the boundary adjustment
   //     moves a value by one precision() and the duplicate separation by at most k of them
   if (bok && vok) {
-    double tv = (double)(k + 1) * s.prec;
-    for (size_t i = 0; i < k; ++i)
+    for (size_t i = 0; i < k; ++i) {
+      // ... in units of precision() or of the double grid at that value, whichever is coarser (beta declares 1e-20, far below the grid:
+      // two classes whose bounds coincide cannot hold two distinct values closer than one grid step)
+      double ulp = std::nextafter(std::fabs(s.v[i]), INF) - std::fabs(s.v[i]);
+      double tv = (double)(k + 1) * std::max(s.prec, ulp);
       if (!(s.v[i] >= s.b[i] - tv && s.v[i] <= s.b[i + 1] + tv)) {
         fail(std::string("values|outside-own-class-interval|") + (s.med ? "median" : "mean") + dc, where() + " | class " + str(i) + " value " + num(s.v[i]) + " not in [" + num(s.b[i]) + "," + num(s.b[i + 1]) + "]");
         break;
       }
+    }
   }
   if (!bok || !pok) return;
   // --- masses against the parent's own cumulative function, relative to the mass of the reported domain
@@ -349,6 +353,7 @@ inline void auditLookup(const ADD& d, vf::Case& c, const std::string& ctx) {
   size_t k = s.k;
   if (s.v.size() != k || s.b.size() != k + 1 || k == 0) return;
   for (size_t i = 0; i + 1 <= k; ++i) if (!(s.b[i + 1] >= s.b[i])) return;   // judged by the bounds clause
+  for (size_t i = 0; i < k; ++i) if (!std::isfinite(s.v[i])) return;           // judged by the values clause
   std::vector<double> xs;
   for (size_t i = 0; i <= k; ++i) xs.push_back(s.b[i]);
   for (size_t i = 0; i < k; ++i) { xs.push_back(s.v[i]); xs.push_back(s.b[i] / 2 + s.b[i + 1] / 2); }
